@@ -1,5 +1,5 @@
 import EupsModel.Lemmas.Expand
-import EupsModel.Lemmas.SetupBasic
+import EupsModel.Lemmas.SetupUnwind
 /-! Bridge between C17 (`Model/Expand.lean`) and the model of `Eups.setup` (`Model/Setup.lean`, property C01): the action
 loop of `Eups.setup`, run in exact mode on the actions of the pin lines `setupRequired(n -j v)` / `setupOptional(n -j v)`
 of an expanded table, does what C17's reference semantics `runPins` says — the Setup half of the hypothesis
@@ -14,19 +14,22 @@ def exactVro : List VroEnt := [.typeExact, .commandLine, .version, .versionExpr,
 theorem exactVro_eq : exactVro = selectVRO false false [] := by decide
 
 /-- the action of a pin line `setupX(n -j v)`: dependency on `n`, `-j`, explicit version `v`, no `[expr]`, no `-t` -/
-def pinAct (p : Bool × Str × Str) : Act := .dep p.2.1 p.1 true (some (.explicit p.2.2)) none []
+def pinAct (p : Bool × Str × Str) : Act := .dep p.2.1 p.1 true (some (.explicit p.2.2)) none [] false
 
-/-- "declared" for the Setup database -/
-def declaredS (db : Setup.Db) (n v : Str) : Bool := (db.lookup (n, v)).isSome
+/-- "declared" for the Setup database: some stack on the request's `EUPS_PATH` declares the version -/
+def declaredS (cfg : Setup.Cfg) (n v : Str) : Bool := (cfg.db.findVer cfg.path n v).isSome
 
-theorem resolve_pin_declared (db : Setup.Db) (al : Already) (n v : Str) (d : Decl) (hal : aget al n = none)
-    (hd : db.lookup (n, v) = some d) :
-    resolve db false al n (some (.explicit v)) none 1 exactVro.length exactVro = .found d (some .version) := by
+/-- the version names of the `SETUP_<P>` records (C17 does not look at the stack of a record) -/
+def recNames (e : Setup.Env) : Recs := fun m => (e.rec? m).map (·.1)
+
+theorem resolve_pin_declared (db : Setup.Db) (path : List Nat) (al : Already) (n v : Str) (d : Decl) (hal : aget al n = none)
+    (hd : db.findVer path n v = some d) :
+    resolve db path false al n (some (.explicit v)) none 1 exactVro.length exactVro = .found d (some .version) := by
   simp [exactVro, resolve, find, walk, hal, hd]
 
-theorem resolve_pin_undeclared (db : Setup.Db) (al : Already) (n v : Str) (hal : aget al n = none)
-    (hd : db.lookup (n, v) = none) :
-    resolve db false al n (some (.explicit v)) none 1 exactVro.length exactVro = .none := by
+theorem resolve_pin_undeclared (db : Setup.Db) (path : List Nat) (al : Already) (n v : Str) (hal : aget al n = none)
+    (hd : db.findVer path n v = none) :
+    resolve db path false al n (some (.explicit v)) none 1 exactVro.length exactVro = .none := by
   simp [exactVro, resolve, find, walk, hal, hd, VroEnt.isVersionType]
 
 theorem apply_recs (fwd : Bool) (p : Setup.Prod) (a : Act) (s : St) :
@@ -35,7 +38,7 @@ theorem apply_recs (fwd : Bool) (p : Setup.Prod) (a : Act) (s : St) :
   | prepend var vals app => cases fwd <;> simp [Act.apply, Env.addPath, Env.removePath]
   | set var val => cases fwd <;> simp [Act.apply]
   | alias key val => cases fwd <;> simp [Act.apply]
-  | dep n o j ver ve t => simp [Act.apply]
+  | dep n o j ver ve t kl => simp [Act.apply]
 
 /-- with `-j` (`noRecursion`) the table of a product is run without any recursive call -/
 theorem acts_noRec (rec : Rec) (cfg : Cfg) (fwd : Bool) (depth : Nat) (vro : List VroEnt) (d : Decl) (as : List Act) (s : St) :
@@ -44,7 +47,7 @@ theorem acts_noRec (rec : Rec) (cfg : Cfg) (fwd : Bool) (depth : Nat) (vro : Lis
   | nil => exact ⟨s, by simp [acts], rfl, rfl⟩
   | cons a rest ih =>
     cases a with
-    | dep n o j ver ve t => simpa [acts] using ih s
+    | dep n o j ver ve t kl => simpa [acts] using ih s
     | prepend var vals app =>
       obtain ⟨s', h1, h2, h3⟩ := ih ((Act.prepend var vals app).apply fwd d.prod s)
       have := apply_recs fwd d.prod (.prepend var vals app) s
@@ -59,42 +62,48 @@ theorem acts_noRec (rec : Rec) (cfg : Cfg) (fwd : Bool) (depth : Nat) (vro : Lis
       exact ⟨s', by simpa [acts] using h1, by rw [h2, this.1], by rw [h3, this.2]⟩
 
 /-- `Eups.setup(n, v, noRecursion=True)` at depth 1 in exact mode, `n` not set up and not in `alreadySetupProducts`:
-declared → the records gain `n := v` and nothing else changes in them; undeclared → "not found", state untouched. -/
+declared on the path → the records gain `n := v` (from some stack `k`) and nothing else changes in them;
+undeclared → "not found", state untouched. -/
 theorem setup_pin (cfg : Cfg) (hk : cfg.keep = false) (fuel : Nat) (n v : Str) (s : St)
     (hal : aget s.already n = none) (hrec : s.env.rec? n = none) :
-    (∀ d, cfg.db.lookup (n, v) = some d →
+    (∀ d, cfg.db.findVer cfg.path n v = some d →
       ∃ s', setup cfg (fuel + 1) true 1 true exactVro n (some (.explicit v)) none s = .ok s' ∧
-        s'.env.recs = aset s.env.recs n v ∧ ∃ x, s'.already = aset s.already n x) ∧
-    (cfg.db.lookup (n, v) = none →
+        (∃ k, s'.env.recs = aset s.env.recs n (v, k)) ∧ ∃ x, s'.already = aset s.already n x) ∧
+    (cfg.db.findVer cfg.path n v = none →
       setup cfg (fuel + 1) true 1 true exactVro n (some (.explicit v)) none s = .notFound s) := by
   constructor
-  · intro d hd
-    have hv : d.ver = v := by
-      have := (lookup_canon cfg.db (n, v) d hd).2
-      exact congrArg Prod.snd this
-    have hn : d.name = n := by
-      have := (lookup_canon cfg.db (n, v) d hd).2
-      exact congrArg Prod.fst this
-    have hsp : setupProd cfg.db s.env d.name = none := by simp [setupProd, hn, hrec]
-    obtain ⟨s', h1, h2, h3⟩ := acts_noRec (setup cfg fuel) cfg true 1 exactVro d (d.actions cfg.exact) (record d (some .version) s)
-    refine ⟨s', ?_, ?_, ?_⟩
-    · simp [setup, hk, resolve_pin_declared cfg.db s.already n v d hal hd, install, register, hsp, h1]
-    · rw [h2]; simp [record, hn, hv]
-    · exact ⟨(d, some VroEnt.version), by rw [h3]; simp [record, hn]⟩
+  · intro d0 hd
+    obtain ⟨hc0, hn0, hv0⟩ := findVer_named cfg.db cfg.path n v d0 hd
+    let sa := s.afterResolve cfg 1 exactVro n (some (.explicit v)) none
+    let d := pickDecl cfg.db s.cache d0
+    have hn : d.name = n := (pickDecl_spec cfg.db s.cache d0 n hc0 hn0).2
+    have hv : d.ver.1 = v := by rw [← hv0]; exact pickDecl_ver cfg.db s.cache d0
+    have hsp : setupProd cfg.db sa.env d.name = none := by
+      show setupProd cfg.db s.env d.name = none
+      simp [setupProd, hn, hrec]
+    obtain ⟨s', h1, h2, h3⟩ := acts_noRec (setup cfg fuel) cfg true 1 exactVro d (d.actions cfg.exact) (record d (some .version) sa)
+    refine ⟨s', ?_, ⟨d.ver.2, ?_⟩, ?_⟩
+    · simp only [setup, hk, resolve_pin_declared cfg.db cfg.path s.already n v d0 hal hd, if_true]
+      show install (setup cfg fuel) cfg 1 true exactVro d (some .version) (register cfg 1 d (some .version) sa) = _
+      simp [install, register, hsp, h1]
+    · rw [h2]
+      show aset s.env.recs d.name d.ver = _
+      rw [hn, ← hv]
+    · exact ⟨(d, some VroEnt.version), by rw [h3]; show aset s.already d.name _ = _; rw [hn]⟩
   · intro hd
-    simp [setup, hk, resolve_pin_undeclared cfg.db s.already n v hal hd]
+    simp [setup, hk, resolve_pin_undeclared cfg.db cfg.path s.already n v hal hd]
 
 /-- **The Setup half of `pin_sets_exactly`.**  The action loop of `Eups.setup` (exact mode, no `--keep`, no
 `--max-depth`), run at the top level on the actions of pin lines for distinct products none of which is set up yet, ends
-the way `runPins` says: when `runPins` succeeds with records `r`, the loop succeeds and the `SETUP_<P>` records are `r`;
-when `runPins` fails (a required pin is not declared), the loop raises. -/
+the way `runPins` says: when `runPins` succeeds with records `r`, the loop succeeds and the version names in the
+`SETUP_<P>` records are `r`; when `runPins` fails (a required pin is not declared on the path), the loop raises. -/
 theorem acts_pins (cfg : Cfg) (hk : cfg.keep = false) (hm : cfg.maxDepth = none) (fuel : Nat) (top : Decl)
     (pins : List (Bool × Str × Str)) (s : St)
     (hnodup : (pins.map (·.2.1)).Nodup)
     (hfresh : ∀ p ∈ pins, aget s.already p.2.1 = none ∧ s.env.rec? p.2.1 = none) :
-    (∀ r, runPins declaredS cfg.db pins (fun m => s.env.rec? m) = some r →
-      ∃ s', acts (setup cfg (fuel + 1)) cfg true 0 false exactVro top (pins.map pinAct) s = .ok s' ∧ ∀ m, s'.env.rec? m = r m) ∧
-    (runPins declaredS cfg.db pins (fun m => s.env.rec? m) = none →
+    (∀ r, runPins declaredS cfg pins (recNames s.env) = some r →
+      ∃ s', acts (setup cfg (fuel + 1)) cfg true 0 false exactVro top (pins.map pinAct) s = .ok s' ∧ ∀ m, recNames s'.env m = r m) ∧
+    (runPins declaredS cfg pins (recNames s.env) = none →
       ∃ s', acts (setup cfg (fuel + 1)) cfg true 0 false exactVro top (pins.map pinAct) s = .raised s') := by
   induction pins generalizing s with
   | nil =>
@@ -108,9 +117,9 @@ theorem acts_pins (cfg : Cfg) (hk : cfg.keep = false) (hm : cfg.maxDepth = none)
     obtain ⟨hnot, hnd⟩ := hnodup
     obtain ⟨hdecl, hundecl⟩ := setup_pin cfg hk fuel n v s hal hrec
     have hkeep : (VroEnt.keep ∈ exactVro) = False := by simp [exactVro]
-    cases hl : cfg.db.lookup (n, v) with
+    cases hl : cfg.db.findVer cfg.path n v with
     | some d =>
-      obtain ⟨s1, hs1, hrecs, x, halr⟩ := hdecl d hl
+      obtain ⟨s1, hs1, ⟨k, hrecs⟩, x, halr⟩ := hdecl d hl
       have hfresh1 : ∀ p ∈ rest, aget s1.already p.2.1 = none ∧ s1.env.rec? p.2.1 = none := by
         intro p hp
         have hne : p.2.1 ≠ n := fun e => hnot (by rw [← e]; exact List.mem_map_of_mem (f := fun q : Bool × Str × Str => q.2.1) hp)
@@ -121,11 +130,11 @@ theorem acts_pins (cfg : Cfg) (hk : cfg.keep = false) (hm : cfg.maxDepth = none)
       have hstep : acts (setup cfg (fuel + 1)) cfg true 0 false exactVro top (pinAct (opt, n, v) :: rest.map pinAct) s
           = acts (setup cfg (fuel + 1)) cfg true 0 false exactVro top (rest.map pinAct) s1 := by
         simp [acts, pinAct, hm, hkeep, hs1]
-      have hrun : runPins declaredS cfg.db ((opt, n, v) :: rest) (fun m => s.env.rec? m)
-          = runPins declaredS cfg.db rest (fun m => s1.env.rec? m) := by
-        have : (fun m => s1.env.rec? m) = Recs.set (fun m => s.env.rec? m) n v := by
+      have hrun : runPins declaredS cfg ((opt, n, v) :: rest) (recNames s.env)
+          = runPins declaredS cfg rest (recNames s1.env) := by
+        have : recNames s1.env = Recs.set (recNames s.env) n v := by
           funext m
-          simp only [Env.rec?, hrecs, Recs.set]
+          simp only [recNames, Env.rec?, hrecs, Recs.set]
           by_cases hmn : m = n
           · subst hmn; simp [aget_aset_same]
           · simp [hmn, aget_aset_other _ _ _ _ hmn]
@@ -140,19 +149,19 @@ theorem acts_pins (cfg : Cfg) (hk : cfg.keep = false) (hm : cfg.maxDepth = none)
         have hstep : acts (setup cfg (fuel + 1)) cfg true 0 false exactVro top (pinAct (true, n, v) :: rest.map pinAct) s
             = acts (setup cfg (fuel + 1)) cfg true 0 false exactVro top (rest.map pinAct) s := by
           simp [acts, pinAct, hm, hkeep, hs1]
-        have hrun : runPins declaredS cfg.db ((true, n, v) :: rest) (fun m => s.env.rec? m)
-            = runPins declaredS cfg.db rest (fun m => s.env.rec? m) := by
+        have hrun : runPins declaredS cfg ((true, n, v) :: rest) (recNames s.env)
+            = runPins declaredS cfg rest (recNames s.env) := by
           simp [runPins, declaredS, hl]
         simp only [List.map_cons]
         rw [hstep, hrun]
         exact ih s hnd (fun p hp => hfresh p (by simp [hp]))
       | false =>
-        have hrun : runPins declaredS cfg.db ((false, n, v) :: rest) (fun m => s.env.rec? m) = none := by
+        have hrun : runPins declaredS cfg ((false, n, v) :: rest) (recNames s.env) = none := by
           simp [runPins, declaredS, hl]
         simp only [List.map_cons]
         rw [hrun]
         refine ⟨fun r hr => (by cases hr), fun _ => ?_⟩
-        refine ⟨{ s with env := s.env, aliases := s.aliases, unaliased := s.unaliased }, ?_⟩
+        refine ⟨s, ?_⟩
         simp [acts, pinAct, hm, hkeep, hs1]
 
 end EupsModel.Expand
